@@ -160,14 +160,16 @@ def leaves(node, prefix=()):
 
 
 def terms_of(rng, spec):
-    """Separable quadratic likelihood: one term (path, c, t) per leaf."""
+    """Separable quadratic likelihood: one term (path, c, t) per leaf.  The optimum of a Gaussian-prior
+    parameter is never at the prior mean, so that its log prior is non-zero where the samplers end up."""
     terms = []
     for path, (kind, x) in leaves(spec["root"]):
         c = rng.choice([0.5, 1.0, 1.5, 2.0, 3.0, 5.0])
         if kind == "p":
             p = spec["priors"][x]
             lo, hi = unhex(p["lo"]), unhex(p["hi"])
-            t = lo + (hi - lo) * rng.choice([0.25, 0.375, 0.5, 0.625, 0.75])
+            fr = [0.25, 0.375, 0.625, 0.75] if p["family"] == "gaussian" else [0.25, 0.375, 0.5, 0.625, 0.75]
+            t = lo + (hi - lo) * rng.choice(fr)
         else:
             t = x + rng.choice([-0.5, 0.25, 1.0])
         terms.append([path.split("."), c, t])
@@ -282,12 +284,70 @@ def gen_conv(rng, search, spec=None):
             "spec_paths": [p for p, _ in leaves(spec["root"])]}
 
 
+def gen_init(rng):
+    """AbstractInitializer.samples_from_model driven by a scripted fitness."""
+    spec = gen_spec(rng, max_priors=3)
+    kinds = ["fitexc", "nan", "low", "neginf"]
+    bands, lo = [], 0.0
+    for k in rng.sample(kinds, rng.randint(0, 3)):
+        w = rng.choice([0.1, 0.15, 0.25])
+        bands.append([lo, lo + w, k])
+        lo += w
+    return {"kind": "init", "search": "initializer", "spec": spec, "seed": rng.randrange(10 ** 6),
+            "state": {"total": rng.choice([1, 2, 3, 5, 8, 13]), "cores": rng.choice([1, 2, 2, 3, 3]), "bands": bands,
+                      "delay": rng.choice([0.0, 0.003])}}
+
+
+def init_value(params):
+    return -sum((i + 1.0) * v ** 2 for i, v in enumerate(params))
+
+
+def init_kind(bands, params):
+    frac = (abs(params[0]) * 7.3) % 1.0
+    for lo, hi, kind in bands:
+        if lo <= frac < hi:
+            return kind
+    return "value"
+
+
+def init_oracle(c, r):
+    """Every returned (parameters, figure of merit) pair: the figure of merit is the fitness of those very
+    parameters, none of them is a rejected point, and total_points pairs come back."""
+    st = c["state"]
+    out = []
+    if not (len(r["params"]) == len(r["foms"]) == len(r["units"]) == st["total"]):
+        out.append(("count", "asked for %d points, got %d parameter vectors / %d unit vectors / %d figures of merit"
+                    % (st["total"], len(r["params"]), len(r["units"]), len(r["foms"]))))
+    drawn = {tuple(d[1]): d[0] for d in r["draws"]}
+    for i, (u, p, f) in enumerate(zip(r["units"], r["params"], r["foms"])):
+        vec = [unhex(x) for x in p]
+        if init_kind(st["bands"], vec) != "value":
+            out.append(("pairing", "returned point %d %r is one the fitness rejects (%s)" % (i, vec, init_kind(st["bands"], vec))))
+        elif unhex(f) != init_value(vec):
+            out.append(("pairing", "returned point %d %r carries figure of merit %r, its fitness is %r" % (i, vec, unhex(f), init_value(vec))))
+        if drawn.get(tuple(p)) != u:
+            out.append(("pairing", "returned point %d: unit vector and parameter vector are not one draw" % i))
+    return out[:4]
+
+
+def coq_init_case(c, r):
+    st = c["state"]
+    draws = clist(["(%s, %s, %s)" % (cfl(u), cfl(p), copt(f, lambda x: cfloat(unhex(x)))) for u, p, f in r["draws"]])
+    return "CaseInit %s %s %s %s %s %s" % (cnat(st["cores"]), cnat(st["total"]), draws, cfll(r["units"]), cfll(r["params"]), cfl(r["foms"]))
+
+
 E2E_SEARCHES = ["drawer", "emcee", "dynesty_static", "dynesty_dynamic", "bfgs", "lbfgs", "pyswarms_global", "pyswarms_local"]
 MULTICORE = ("emcee", "dynesty_static", "dynesty_dynamic", "bfgs", "lbfgs", "pyswarms_global", "pyswarms_local")
 
 
 def gen_e2e(rng, search, cores=1, thorough=False, force_reject=False):
     spec = gen_spec(rng, max_priors=3)
+    if not any(p["family"] == "gaussian" for p in spec["priors"]):
+        # a flat prior has log prior 0.0: likelihood and posterior would be indistinguishable
+        p = rng.choice(spec["priors"])
+        lo, hi = unhex(p["lo"]), unhex(p["hi"])
+        p.update({"family": "gaussian", "mean": ((lo + hi) / 2).hex(), "sigma": ((hi - lo) / 4).hex()})
+        spec["features"] = sorted(set(spec["features"]) | {"gaussian"})
     terms = terms_of(rng, spec)
     settings = {}
     if search == "emcee":
@@ -307,9 +367,10 @@ def gen_e2e(rng, search, cores=1, thorough=False, force_reject=False):
         path, (kind, k) = [lf for lf in leaves(spec["root"]) if lf[1][0] == "p"][0]
         p = spec["priors"][k]
         case["slow"] = [path.split("."), (unhex(p["lo"]) + unhex(p["hi"])) / 2.0, 0.04]
-    if search in ("drawer", "bfgs", "lbfgs") and cores == 1:
+    if search != "emcee" and cores == 1:
         case["refit"] = True
-    if search == "drawer" and (force_reject or rng.random() < 0.5):
+    if (search == "drawer" and (force_reject or rng.random() < 0.5)) or \
+            (cores >= 2 and search in ("emcee", "dynesty_static", "dynesty_dynamic", "pyswarms_global", "pyswarms_local")):
         # a region where the fit raises FitException: the initializer must drop those draws
         # without shifting the likelihoods of the remaining ones
         path, (kind, k) = rng.choice([lf for lf in leaves(spec["root"]) if lf[1][0] == "p"])
@@ -456,6 +517,90 @@ def oracle(c, r):
     return fails
 
 
+def contract_fails(c, r):
+    """e2e only: the sampler contract (the hypothesis of the pairing theorems) checked on the arrays the
+    real run produced: every log-probability / log-likelihood / cost the Fitness object handed to the
+    sampler is the likelihood (+ prior) of the point it is stored with.  Independent of the conversion
+    under test and of every known-finding label."""
+    spec, st, s = c["spec"], r["state"], c["search"]
+    ptab = {tuple(k): unhex(v) for k, v in r["prior_table"]}
+    fails = []
+    rej = c.get("reject")
+    col = col_of(spec)
+    kind = dict(leaves(spec["root"]))
+
+    def in_reject(vec):
+        if not rej:
+            return False
+        k = kind[".".join(rej[0])][1]
+        return rej[1] <= vec[col[k]] < rej[2]
+
+    def L(vec):
+        return L_of_vector(spec, c["terms"], vec)
+
+    def prior(vec):
+        return ptab.get(tuple(float(x).hex() for x in vec))
+
+    def bad(msg):
+        if len(fails) < 3:
+            fails.append(("contract", msg))
+
+    def check_post(vec, got, where, resample):
+        if in_reject(vec):
+            if got != resample and not (math.isnan(got) and math.isnan(resample)):
+                bad("%s: point %r lies in the FitException region but carries %r (resample value %r)" % (where, vec, got, resample))
+            return
+        p = prior(vec)
+        want = L(vec) + (p or 0.0)
+        if p is None or not close(got, want, abs(p)):
+            bad("%s: the sampler stores %r for the point %r, likelihood + prior there is %r" % (where, got, vec, want))
+
+    if s == "emcee":
+        for si, (step, lps) in enumerate(zip(st["chain"], st["logp"])):
+            for wi, (v, lp) in enumerate(zip(step, lps)):
+                check_post([unhex(x) for x in v], unhex(lp), "emcee step %d walker %d" % (si, wi), float("-inf"))
+    elif s in ("dynesty_static", "dynesty_dynamic"):
+        for i, (v, l) in enumerate(zip(st["rows"], st["logl"])):
+            vec = [unhex(x) for x in v]
+            if in_reject(vec):
+                if unhex(l) != -1.0e99:
+                    bad("dynesty sample %d lies in the FitException region with logl %r" % (i, unhex(l)))
+            elif not close(unhex(l), L(vec)):
+                bad("dynesty sample %d: logl %r, likelihood of the point %r is %r" % (i, unhex(l), vec, L(vec)))
+    elif s in ("bfgs", "lbfgs"):
+        check_post([unhex(x) for x in st["x"]], unhex(st["post"]), "final point", float("-inf"))
+        if st["visualize"]:
+            if len(st["hist"]) != len(st["hist_ll"]):
+                bad("fitness history: %d parameter vectors, %d log-likelihoods" % (len(st["hist"]), len(st["hist_ll"])))
+            for i, (v, l) in enumerate(zip(st["hist"], st["hist_ll"])):
+                vec = [unhex(x) for x in v]
+                if not in_reject(vec) and not close(unhex(l), L(vec)):
+                    bad("fitness history entry %d: log-likelihood %r, likelihood of %r is %r" % (i, unhex(l), vec, L(vec)))
+    elif s == "drawer":
+        if len(st["rows"]) != len(st["post"]):
+            bad("drawer: %d parameter vectors, %d log-posteriors" % (len(st["rows"]), len(st["post"])))
+        for i, (v, l) in enumerate(zip(st["rows"], st["post"])):
+            check_post([unhex(x) for x in v], unhex(l), "draw %d" % i, float("nan"))
+    elif s in ("pyswarms_global", "pyswarms_local"):
+        best = float("inf")
+        if len(st["pos"]) != len(st["cost"]):
+            bad("pyswarms: %d iterations of positions, %d best costs" % (len(st["pos"]), len(st["cost"])))
+        for t, (it, cost) in enumerate(zip(st["pos"], st["cost"])):
+            for v in it:
+                vec = [unhex(x) for x in v]
+                if in_reject(vec):
+                    continue
+                p = prior(vec)
+                if p is None:
+                    bad("pyswarms: no prior value for a visited point")
+                    continue
+                best = min(best, -2.0 * (L(vec) + p))
+            if not close(unhex(cost), best):
+                bad("pyswarms iteration %d: best cost %r, the running minimum of -2*(likelihood + prior) over the visited "
+                    "positions is %r" % (t, unhex(cost), best))
+    return fails
+
+
 VARIANTS = {}
 
 
@@ -559,6 +704,8 @@ def coq_case(c, r, variants):
 def nontrivial(c):
     if c["kind"] == "e2e":
         return True
+    if c["kind"] == "init":
+        return c["state"]["total"] >= 2
     st = c["state"]
     if c["search"] in ("emcee", "zeus"):
         return len(st["chain"]) * len(st["chain"][0]) >= 2
@@ -579,6 +726,8 @@ def gen_cases(ctx):
     for s in CONV_SEARCHES:
         for _ in range(per + (6 if s in ("emcee", "from_lists") else 0)):
             cases.append(gen_conv(rng, s))
+    for _ in range(24 if not thorough else 160):
+        cases.append(gen_init(rng))
     e2e = []
     if not thorough:
         plan = [(s, 1) for s in E2E_SEARCHES] + [("dynesty_static", 2), ("emcee", 2), ("lbfgs", 2), ("pyswarms_global", 2)]
@@ -641,7 +790,7 @@ def run(ctx):
     if ctx.replay:
         rp = json.load(open(ctx.replay))
         if rp.get("case"):
-            conv, e2e = ([rp["case"]], []) if rp["case"]["kind"] == "conv" else ([], [rp["case"]])
+            conv, e2e = ([rp["case"]], []) if rp["case"]["kind"] in ("conv", "init") else ([], [rp["case"]])
     for i, c in enumerate(conv + e2e):
         c["idx"] = i
     # few, fat driver processes: importing autofit costs ~3 s of CPU per process
@@ -665,6 +814,7 @@ def run(ctx):
             results += o["results"]
     cases = conv + e2e
     coq_cases, coq_idx = [], []
+    emcee_runs = {"total": 0, "with_samples": 0, "degenerate": 0, "result_unobservable": 0}
     for i, (c, r) in enumerate(zip(cases, results)):
         key = {k: v for k, v in c.items() if k != "idx"}
         ctx.count_case(key, nontrivial(c), "%s:%s" % (c["kind"], c["search"]))
@@ -674,6 +824,20 @@ def run(ctx):
         if c["kind"] == "e2e":
             ctx.hist("cores", c["cores"])
         ctx.oracle["cases"] += 1
+        if c["kind"] == "init":
+            ctx.hist("init_cores", c["state"]["cores"])
+            if "exc" in r:
+                ctx.oracle["failures"] += 1
+                ctx.failure("oracle", "initializer raised %s: %s" % (r["exc"], r.get("msg")), key, classes=["initializer:raised"], impl=r)
+                continue
+            ok_r = r["ok"]
+            ctx.hist("init_rejected_draws", min(5, sum(1 for d in ok_r["draws"] if d[2] is None)))
+            for aspect, msg in init_oracle(c, ok_r)[:1]:
+                ctx.oracle["failures"] += 1
+                ctx.failure("oracle", msg, key, classes=["initializer:" + aspect], impl=_small(ok_r))
+            coq_cases.append(coq_init_case(c, ok_r))
+            coq_idx.append(i)
+            continue
         if "exc" in r:
             # only the samplers' own documented failures are legitimate, and only at conversion level
             legit = c["kind"] == "conv" and c["search"] in ("emcee", "zeus") and r["exc"] == "ValueError" \
@@ -683,6 +847,7 @@ def run(ctx):
             if degenerate:
                 # the real chain's autocorrelation time came out < 2 (thin = 0) or NaN: no result is returned at all
                 ctx.hist("outcome", "e2e-emcee-degenerate-autocorr")
+                emcee_runs["degenerate"] += 1
                 continue
             if not legit:
                 ctx.oracle["failures"] += 1
@@ -702,6 +867,18 @@ def run(ctx):
         if ok_r["obs"].get("summary_fallback") or (ok_r.get("notes") or {}).get("fit_failed"):
             ctx.hist("numpy_median_pdf_workaround", c["search"])
         fails = oracle(c, ok_r)
+        if c["kind"] == "e2e":
+            fails = contract_fails(c, ok_r) + fails
+            if c["search"] == "emcee":
+                emcee_runs["total"] += 1
+                if ok_r["obs"]["samples"]:
+                    emcee_runs["with_samples"] += 1
+                elif int(3.0 * unhex(ok_r["state"]["tau"])) >= len(ok_r["state"]["chain"]):
+                    # burn-in longer than the chain: the conversion legitimately returns nothing
+                    ctx.hist("outcome", "e2e-emcee-burn-in-exceeds-chain")
+                    fails = [f for f in fails if f[1] != "the search returned no samples"]
+                if (ok_r.get("notes") or {}).get("fit_failed") == "numpy-median_pdf":
+                    emcee_runs["result_unobservable"] += 1
         if fails:
             ctx.oracle["failures"] += 1
             seen = set()
@@ -720,6 +897,18 @@ def run(ctx):
         if i % 29 == 0:
             ctx.sample({"search": c["search"], "kind": c["kind"], "features": c["spec"]["features"],
                         "priors": len(c["spec"]["priors"]), "samples": len(ok_r["obs"]["samples"])}, limit=10)
+    # the degenerate-autocorrelation / empty-burn-in buckets must not swallow every emcee run
+    n_emcee = sum(1 for c in e2e if c["search"] == "emcee")
+    if n_emcee and not ctx.replay:
+        ctx.obligation("e2e:emcee-observed", "harness", emcee_runs["with_samples"] >= 1,
+                       "%d emcee runs, %d returned samples, %d degenerate" % (n_emcee, emcee_runs["with_samples"], emcee_runs["degenerate"]))
+    ctx.notes["emcee_runs"] = emcee_runs
+    if emcee_runs["result_unobservable"]:
+        ctx.notes["emcee_result_not_observable"] = (
+            "Emcee.fit raised TypeError in SamplesMCMC.median_pdf (float(np.percentile(x, [50])) under numpy >= 2) in %d of %d runs: "
+            "no Result object exists for the only runnable MCMC search; result.log_likelihood / result.instance / samples_summary of "
+            "Emcee are NOT covered end to end here (only search.samples_from on the real backend and the base-class summary)"
+            % (emcee_runs["result_unobservable"], emcee_runs["total"]))
     # 4. correspondence inside Coq
     if os.path.exists(os.path.join(common.COQ, "C05", "Model.vo")):
         hdr = ctx.header(["Common.PyFloat", "Common.Lists", "Model"])
@@ -729,6 +918,12 @@ def run(ctx):
         for b in (bad or [])[:5]:
             i = coq_idx[b]
             c, r = cases[i], results[i].get("ok")
+            if c["kind"] == "init":
+                ctx.failure("correspondence", "samples_from_model differs from the model (batches of n_cores zipped by position, "
+                            "rejected draws dropped)", {k: v for k, v in c.items() if k != "idx"}, classes=["initializer:correspondence"],
+                            impl=_small(r, 20000), broken={"kind": "correspondence", "name": "C05.check_case"},
+                            found_input=bool(r is not None and init_oracle(c, r)))
+                continue
             shown = ctx.show(hdr, "match (%s) with Case pp cols pt et st e => (column_ids pp, model_outcome pp pt et st) end"
                              % coq_cases[b], tag="model%d" % b)
             diff = ctx.show(hdr, "match (%s) with Case pp cols pt et st e => match model_outcome pp pt et st, e with "
